@@ -404,6 +404,12 @@ class FactoryOracle:
                         self.mon.violation("C15", "first_available_out",
                                            f"{L.type}:FIRST_AVAILABLE-" + ("chose-an-edge-that-cannot-serve" if res else "skipped-an-edge-able-to-serve") + ":wrong-can_put-answer",
                                            {"node": L.id, "edge": edge.id, "answer": bool(res), "free": sh.free()})
+                    if (not res and exp is False and L.node._spec.get("out_sel") == "FIRST_AVAILABLE" and sh.free_unleaked() > 0
+                            and not any(not r.leaked for r in sh.pend["put"])):
+                        # the only thing in the way is a reservation that an earlier availability query left behind (nobody holds it)
+                        self.mon.violation("C15", "first_available_out",
+                                           f"{L.type}:FIRST_AVAILABLE-skipped-an-edge-able-to-serve:place-taken-by-a-reservation-an-earlier-query-left-behind",
+                                           {"node": L.id, "edge": edge.id, "held": len(sh.held), "cap": sh.cap})
                     if bool(res) != exp:
                         self.mon.violation("C11", "can_query_inexact", f"{sh.kind}:can_put={bool(res)}-but-free-space={sh.free()}",
                                            {"edge": edge.id, "held": len(sh.held), "granted_put": len(sh.grant["put"]), "cap": sh.cap})
